@@ -700,6 +700,12 @@ func runC09(ctx *Ctx) error {
 					if u.Fixed == "meta" {
 						o["meta"] = "m"
 					}
+					if u.Fixed == "name" {
+						// required: a valid instance has it, as null or as a string
+						if _, has := o["name"]; !has {
+							o["name"] = nil
+						}
+					}
 					if u.Addl {
 						o["extra_key"] = "e"
 					}
@@ -747,6 +753,11 @@ func runC09(ctx *Ctx) error {
 						if u.Fixed == "meta" {
 							o["meta"] = "m"
 						}
+						if u.Fixed == "name" {
+							if _, has := o["name"]; !has {
+								o["name"] = nil
+							}
+						}
 						if u.Addl {
 							o["extra_key"] = "e"
 						}
@@ -781,6 +792,11 @@ func runC09(ctx *Ctx) error {
 			o := v.(map[string]interface{})
 			if u.Disc != "" {
 				o[c09DP] = k0
+			}
+			if u.Fixed == "name" {
+				if _, has := o["name"]; !has {
+					o["name"] = nil
+				}
 			}
 			switch key {
 			case "one":
